@@ -188,3 +188,10 @@ G9_clean = [
     r('Polygon2D.remove_duplicate_vertices', [POLY2, Q], name='Polygon2D_remove_duplicate_vertices'),
 ]
 LAYERS.append(('G9_clean', G9_clean))
+
+G10_grid = [
+    r('Mesh2D._grid_faces', [Z, Z], name='Mesh2D__grid_faces'),
+    r('Mesh2D._grid_vertices', [P2, Z, Z, Q, Q], name='Mesh2D__grid_vertices'),
+    r('Mesh2D._grid_centroids', [P2, Z, Z, Q, Q], name='Mesh2D__grid_centroids'),
+]
+LAYERS.append(('G10_grid', G10_grid))
